@@ -1,6 +1,97 @@
-"""C10 - UDF bridge fidelity (DESIGN.md section 4): MASTER-ENUM histories + growth chains with the oracles.oracle_udf oracle."""
-from mc import master, ops, oracles
+"""C10 - UDF bridge fidelity (DESIGN.md section 4): MASTER-ENUM histories with the ECMA-167 oracle + a sweep of UDF names."""
+import itertools
+
+from mc import explore, master, ops, oracles
+from mc.framework import Result
 from mc.props import _std
 
-_std.install(globals(), 'C10', 'model_checking', [oracles.oracle_udf], _std.default_bounds(),
-             ['independent decoder r167 is trusted base'] + ['alphabet sigma1 of mc/ops.py and the depth bounds listed in the evidence'])
+SIGMA_U = ['a', 'A', 'ä', 'ÿ', '中', '\U0001f600', ' ', '.', ';', '\x01']
+
+
+def names(tier):
+    out = []
+    for n in range(1, (4 if tier == 'thorough' else 3) + 1):
+        for t in itertools.product(SIGMA_U, repeat=n):
+            out.append(''.join(t))
+    for ch in ('a', 'ÿ', '中'):
+        for n in (126, 127, 128, 253, 254, 255):
+            out.append(ch * n)
+    return out
+
+
+def steps_for(cfg, name, kind):
+    if kind == 'dir':
+        return [[['add_directory', {'udf_path': '/' + name}]], [['add_fp', {'content': 'c1', 'udf_path': '/' + name + '/f'}]]]
+    if kind == 'symlink-name':
+        return [[['add_symlink', {'udf_symlink_path': '/' + name, 'udf_target': 'target'}]]]
+    if kind == 'symlink-target':
+        return [[['add_symlink', {'udf_symlink_path': '/s', 'udf_target': name}]]]
+    return [[['add_fp', {'content': 'c2049', 'udf_path': '/' + name}]], [['add_fp', {'content': 'c1', 'udf_path': '/zz'}]]]
+
+
+ORACLES = [oracles.oracle_udf, master.oracle_roundtrip]
+
+
+def extra_tasks(tier):
+    ns = names(tier)
+    cfg = ops.mk(3, udf=True)
+    return [{'extra': True, 'cfg': cfg, 'names': ns[i::12]} for i in range(12)]
+
+
+def run_one(cfg, name, kind, res=None):
+    case = {'extra': True, 'cfg': cfg, 'steps': steps_for(cfg, name, kind)}
+    try:
+        status, viols, info = master.evaluate(case, ORACLES, res)
+    except Exception:
+        # the reference model refuses (e.g. identifier longer than 254 bytes): the implementation must refuse as well
+        impl, info2 = explore.run_history(cfg, case['steps'][:1])
+        if impl is not None:
+            return case, 'model-refused', [{'clause': 'names UDF cannot hold are refused', 'cls': 'accepted', 'msg': 'UDF name of %d characters accepted' % len(name)}]
+        if not info2['refused']:
+            t, site = explore.exc_site(info2['exc'])
+            return case, 'model-refused', [{'clause': 'a name is accepted or refused with the invalid-input error', 'cls': '%s@%s' % (t, site), 'msg': str(info2['exc'])[:100]}]
+        return case, 'model-refused', []
+    if status == 'crash':
+        t, site = explore.exc_site(info['exc'])
+        viols = [{'clause': 'a name is accepted or refused with the invalid-input error', 'cls': '%s@%s' % (t, site), 'msg': '%s %r: %s' % (kind, name[:20], info['exc'])}]
+    return case, status, viols
+
+
+def extra_run(task):
+    res = Result()
+    for name in task['names']:
+        kinds = ['file', 'dir', 'symlink-name'] if '/' not in name and name not in ('.', '..') else []
+        kinds.append('symlink-target')
+        for kind in kinds:
+            case, status, viols = run_one(task['cfg'], name, kind, res)
+            res.count('name_sweep_cases')
+            res.count('name_sweep_' + status.replace('-', '_'))
+            for v in viols:
+                res.violation(v['clause'], v['cls'], v['msg'], case)
+    return res
+
+
+def check_extra(case):
+    st = case['steps'][0][0]
+    kw = st[1]
+    if st[0] == 'add_directory':
+        name, kind = kw['udf_path'][1:], 'dir'
+    elif st[0] == 'add_symlink':
+        if kw['udf_symlink_path'] == '/s' and kw['udf_target'] != 'target':
+            name, kind = kw['udf_target'], 'symlink-target'
+        else:
+            name, kind = kw['udf_symlink_path'][1:], 'symlink-name'
+    else:
+        name, kind = kw['udf_path'][1:], 'file'
+    return run_one(case['cfg'], name, kind)[2]
+
+
+def coverage_extra(tier, r):
+    return dict((k, v) for k, v in r.n.items() if k.startswith('name_sweep'))
+
+
+_std.install(globals(), 'C10', 'model_checking', [oracles.oracle_udf], _std.default_bounds(big_udf=True),
+             ['independent decoder r167 is trusted base',
+              'name sweep: every name of length 1..3 (4) over %d characters (Latin-1, UCS-2, non-BMP, control) and identifier lengths 126..255, as file, directory, symlink name and symlink target' % len(SIGMA_U),
+              'alphabet sigma1 of mc/ops.py and the depth bounds listed in the evidence; no multi-gigabyte file is mastered (see DESIGN section 8)'],
+             extra_tasks=extra_tasks, extra_run=extra_run)
